@@ -65,12 +65,14 @@ PROPS = {
     "C09": {
         "level": "exploration",
         "technique": "rapid property test + exhaustive (payload, MTU) grid; validity predicate over the fragment list and byte-identical reassembly in all orders, judged with the independent CBOR reader",
-        "level_text": "Every (bundle, MTU) pair is judged by a validity predicate (size, identity fields, partition, block placement) evaluated on independently decoded bytes, and by byte-identical reassembly in all orders for up to 5 fragments. Small payloads x all MTUs are enumerated exhaustively for several block layouts.",
+        "level_text": "Every (bundle, MTU) pair is judged by a validity predicate (size, identity fields, partition, block placement) evaluated on independently decoded bytes, and by byte-identical reassembly in all orders for up to 5 fragments. Small payloads x all MTUs are enumerated exhaustively for several block layouts. Fragments are fragmented again (random and exhaustive over the second limit) and judged by the same predicate relative to the original bundle.",
         "level_note": "multi-entry map blocks are excluded as the statement says; payloads up to 70 KB; for a must-not-fragment bundle that fits both refusing and returning the bundle are accepted",
         "assumptions": ["clock-less bundles are generated mostly with a replicated age block, otherwise Fragment legitimately fails"],
         "units": [
             {"name": "c09.random", "pkg": BPV7, "test": "TestVerifC09Random", "shards_t": 16},
             {"name": "c09.grid", "pkg": BPV7, "test": "TestVerifC09Grid", "shards_t": 16, "shards_q": 4},
+            {"name": "c09.refragment", "pkg": BPV7, "test": "TestVerifC09Refragment", "shards_t": 16, "shards_q": 2},
+            {"name": "c09.refragment-grid", "pkg": BPV7, "test": "TestVerifC09RefragmentGrid", "shards_t": 16, "shards_q": 4},
         ],
     },
     "C10": {
@@ -114,6 +116,7 @@ PROPS = {
             {"name": "c11.bundle-trains", "pkg": UTILS, "test": "TestVerifC11BundleTrains", "shards_t": 8},
             {"name": "c11.managers", "pkg": UTILS, "test": "TestVerifC11Managers", "shards_t": 16, "shards_q": 4},
             {"name": "c11.faults", "pkg": UTILS, "test": "TestVerifC11Faults", "shards_t": 4},
+            {"name": "c11.sockets", "pkg": TCPCL, "test": "TestVerifC11Sockets", "shards_t": 16, "shards_q": 4, "crash_is_violation": True},
         ],
     },
     "C16": {
@@ -208,6 +211,7 @@ PROPS = {
         "assumptions": ["direct delivery to the destination node is exempt (statement)", "the second copy of a duplicate reception is dropped by the node, so its previous node is not asserted"],
         "units": [
             {"name": "c13.histories", "pkg": ROUTING, "test": "TestVerifC13Histories", "shards_t": 16, "shards_q": 6, "crash_is_violation": True},
+            {"name": "c13.directed", "pkg": ROUTING, "test": "TestVerifC13Directed", "shards_t": 16, "shards_q": 8},
         ],
     },
     "C06": {
